@@ -108,7 +108,7 @@ func c20Request(nc *nats.Conn, op sOp) (int, error) {
 	if op.Kind == "ep" {
 		subject += "." + op.Parent
 	}
-	msg, err := nc.Request(subject, payload, 20*time.Second)
+	msg, err := nc.Request(subject, payload, 90*time.Second) // a pipelined burst may be queued ahead of this request
 	if err != nil {
 		return 2, err
 	}
@@ -293,6 +293,63 @@ func c20Round(c *c20Case, dir string) error {
 			}
 		}(w)
 	}
+	// a pipelined burst: one connection fires its requests without waiting for the replies, so that more than a
+	// thousand acknowledged writes are outstanding at once; every one of them must be answered
+	burst := 1100
+	if c.Writers > 8 {
+		burst = 3000
+	}
+	if c.Seed%3 != 0 {
+		burst = 0 // one round in three
+	}
+	wg.Add(1)
+	go func() {
+		defer wg.Done()
+		bnc, err := nats.Connect(in.url, nats.Timeout(10*time.Second))
+		if err != nil {
+			atomic.AddInt32(&unanswered, 1)
+			return
+		}
+		defer bnc.Close()
+		inbox := nats.NewInbox()
+		sub, err := bnc.SubscribeSync(inbox)
+		if err != nil {
+			atomic.AddInt32(&unanswered, 1)
+			return
+		}
+		_ = sub.SetPendingLimits(-1, -1)
+		ops := make([]sOp, burst)
+		for i := range ops {
+			ops[i] = sOp{Kind: "np", Node: "n4", Points: []sPoint{{Type: "burst", Key: fmt.Sprint(i % 50), Time: tick(),
+				VBits: math.Float64bits(float64(i)), Origin: "burst"}}}
+			pts := data.Points{ops[i].Points[0].toData()}
+			payload, err := pts.ToPb()
+			if err != nil || bnc.PublishRequest("p.n4", inbox, payload) != nil {
+				atomic.AddInt32(&unanswered, 1)
+				return
+			}
+		}
+		_ = bnc.Flush()
+		got, refused := 0, 0
+		deadline := time.Now().Add(2 * time.Minute)
+		for got < burst {
+			m, err := sub.NextMsg(time.Until(deadline))
+			if err != nil {
+				break
+			}
+			got++
+			if len(m.Data) > 0 {
+				refused++
+			}
+		}
+		if got < burst || refused > 0 {
+			atomic.AddInt32(&unanswered, int32(burst-got+refused))
+			return
+		}
+		for _, op := range ops {
+			ack(op)
+		}
+	}()
 	nReaders := 3
 	c.Readers = make([][]c20Read, nReaders)
 	var rwg sync.WaitGroup
